@@ -771,31 +771,33 @@ def rule_fm_mark_is_checked_mark(prog, fixture=False):
                    "recorded - for every 16-bit cell pattern the mark search accepts, the byte placed ahead of the "
                    "data field in the CRC computation equals the pattern's data bits and its clock bits are the "
                    "mark clock 0xC7 (all patterns the scan mask admits are enumerated)", floor=0 if fixture else 2)
-    for lam in prog.functions.values():
-        if "operator()" not in lam.qn:
-            continue
-        scans = [n for n in lam.walk() if n.get("k") == "CXXMemberCallExpr" and (strip(n["c"][0]) or {}).get("n") == "scan_for"]
+
+    def unwrap(e):
+        e = strip_all(e)
+        for _ in range(4):
+            if e is not None and e.get("k") in ("CXXConstructExpr", "CXXTemporaryObjectExpr", "CXXFunctionalCastExpr",
+                                                "CXXBindTemporaryExpr") and len(e.get("c", [])) == 1:
+                e = strip_all(e["c"][0])
+        return e
+    for sf in prog.functions.values():
+        scans = [n for n in sf.walk() if n.get("k") == "CXXMemberCallExpr" and (strip(n["c"][0]) or {}).get("n") == "scan_for"]
         if len(scans) != 1 or len(scans[0]["c"]) < 4:
             continue
         pat, mask = folded(scans[0]["c"][2]), folded(scans[0]["c"][3])
-        if pat is None or mask is None:
+        if pat is None or mask is None or (mask & 0xFFFF) == 0xFFFF:
             continue
         pat16, mask16 = pat & 0xFFFF, mask & 0xFFFF
-        if mask16 == 0xFFFF:
-            cands = [pat16]
-        else:
-            free = [i for i in range(16) if not (mask16 >> i) & 1]
-            if len(free) > 8:
-                r.undecided.append("%s: the scan mask leaves %d bits open" % (lam.loc(scans[0]), len(free)))
-                continue
-            cands = []
-            for m in range(1 << len(free)):
-                v = pat16 & mask16
-                for j, i in enumerate(free):
-                    v |= ((m >> j) & 1) << i
-                cands.append(v)
-        # the scan result variable and the returns that hand back its pattern
-        res = [v for v in lam.walk() if v.get("k") == "VarDecl" and v.get("c") and any(x is scans[0] for x in walk(v))]
+        free = [i for i in range(16) if not (mask16 >> i) & 1]
+        if len(free) > 8:
+            r.undecided.append("%s: the scan mask leaves %d bits open" % (sf.loc(scans[0]), len(free)))
+            continue
+        cands = []
+        for m in range(1 << len(free)):
+            v = pat16 & mask16
+            for j, i in enumerate(free):
+                v |= ((m >> j) & 1) << i
+            cands.append(v)
+        res = [v for v in sf.walk() if v.get("k") == "VarDecl" and v.get("c") and any(x is scans[0] for x in walk(v))]
         if len(res) != 1:
             continue
         rd = res[0]["d"]
@@ -803,74 +805,126 @@ def rule_fm_mark_is_checked_mark(prog, fixture=False):
         def is_pattern(e, rd=rd):
             return e.get("k") == "MemberExpr" and e.get("n") == "second" and any(
                 x.get("k") == "DeclRefExpr" and x.get("d") == rd for x in walk(e))
-        other_writes = [y for y in lam.walk() if y.get("k") in ("BinaryOperator", "CompoundAssignOperator") and
+
+        def derived(e, depth=0):
+            """e mentions the pattern, directly or through never-reassigned locals."""
+            for y in walk(e):
+                if is_pattern(y):
+                    return True
+                if depth < 3 and y.get("k") == "DeclRefExpr" and y.get("dk") == "Var" and y.get("d") != rd:
+                    for v in sf.walk():
+                        if v.get("k") == "VarDecl" and v.get("d") == y["d"] and v.get("c") and derived(v["c"][0], depth + 1):
+                            return True
+            return False
+        other_writes = [y for y in sf.walk() if y.get("k") in ("BinaryOperator", "CompoundAssignOperator") and
                         y.get("op") in flow.ASSIGN_OPS and is_pattern(strip_all(y["c"][0]) or {}) and
                         not (y.get("op") == "&=" and folded(y["c"][1]) == 0xFFFF)]
-        rets = [x for x in lam.walk() if x.get("k") == "ReturnStmt" and x.get("c") and
-                any(is_pattern(y) for y in walk(x["c"][0]))]
+        rets = [x for x in sf.walk() if x.get("k") == "ReturnStmt" and x.get("c") and derived(x["c"][0])]
         if other_writes or not rets:
-            r.undecided.append("%s: the mark search does not hand back the pattern it found in a form this rule follows" % lam.loc(scans[0]))
+            r.undecided.append("%s: the mark search does not hand back the pattern it found in a form this rule follows" % sf.loc(scans[0]))
             continue
+        # which part of the returned value carries the pattern: the value itself, or a field of a record
+        field = None
+        rv = unwrap(rets[0]["c"][0])
+        if rv is not None and rv.get("k") == "InitListExpr":
+            idx = [i for i, c in enumerate(rv.get("c", [])) if derived(c)]
+            rt = notpl((rv.get("t") or rv.get("ct") or "").replace("const ", "").replace("struct ", ""))
+            rec = [rc for q_, rc in prog.records.items() if notpl(q_).split("::")[-1] == rt.split("::")[-1]]
+            if len(idx) == 1 and rec and idx[0] < len(rec[0]["fields"]):
+                field = rec[0]["fields"][idx[0]]["n"]
+                pat_expr = rv["c"][idx[0]]
+            else:
+                r.undecided.append("%s: cannot tell which field of the returned record carries the pattern" % sf.loc(rets[0]))
+                continue
         accepted = set()
         try:
             for v in cands:
                 for ret in rets:
-                    conds = []
-                    for a in lam.ancestors(ret):
+                    ok = True
+                    labels = []
+                    child = ret
+                    for a in sf.ancestors(ret):
                         if a.get("k") == "IfStmt":
-                            then = a["c"][a["parts"]["then"]]
-                            conds.append((a["c"][a["parts"]["cond"]], any(x is ret for x in walk(then))))
-                        elif a.get("k") in ("WhileStmt", "ForStmt", "DoStmt", "CompoundStmt"):
-                            continue
-                        elif a.get("k") not in ("IfStmt",) and a is not lam.body:
-                            pass
-                    if all(bool(_ceval(lam, c, is_pattern, v)) == sense for c, sense in conds
-                           if any(is_pattern(y) for y in walk(c))):
+                            cond = a["c"][a["parts"]["cond"]]
+                            if derived(cond):
+                                sense = any(x is child for x in walk(a["c"][a["parts"]["then"]]))
+                                if bool(_ceval(sf, cond, is_pattern, v)) != sense:
+                                    ok = False
+                        elif a.get("k") == "CaseStmt" and a.get("v") is not None:
+                            labels.append(a["v"])
+                        elif a.get("k") == "DefaultStmt":
+                            labels.append("default")
+                        elif a.get("k") == "SwitchStmt":
+                            cond = a["c"][a["parts"]["cond"]] if a.get("parts") and "cond" in a["parts"] else a["c"][0]
+                            if derived(cond):
+                                if "default" in labels:
+                                    raise _NoValue("return under a default label")
+                                if _ceval(sf, cond, is_pattern, v) not in labels:
+                                    ok = False
+                            labels = []
+                        child = a
+                    if ok:
                         accepted.add(v)
         except _NoValue as e:
-            r.undecided.append("%s: cannot evaluate the acceptance test of the mark search (%s)" % (lam.loc(rets[0]), e))
+            r.undecided.append("%s: cannot evaluate the acceptance test of the mark search (%s)" % (sf.loc(rets[0]), e))
             continue
-        # the caller: the variable holding the lambda's result, and the one-byte array given to the CRC first
+        # the caller: the variable holding the search result, and the mark byte given to the CRC first
         for fn in prog.functions.values():
             holders = [v for v in fn.walk() if v.get("k") == "VarDecl" and v.get("c") and
-                       any(x.get("k") in ("CXXOperatorCallExpr", "CallExpr") and lam in prog.call_targets(fn, x) for x in walk(v))]
+                       any(x.get("k") in ("CXXOperatorCallExpr", "CallExpr") and sf in prog.call_targets(fn, x) for x in walk(v))]
             for h in holders:
                 hd = h["d"]
 
-                def is_mark(e, hd=hd):
+                def is_mark(e, hd=hd, field=field):
+                    mentions = any(x.get("k") == "DeclRefExpr" and x.get("d") == hd for x in walk(e))
+                    if field is not None:
+                        return e.get("k") == "MemberExpr" and e.get("n") == field and mentions
                     if e.get("k") == "CXXOperatorCallExpr" and e.get("op") == "*" and len(e.get("c", [])) >= 2:
                         return (strip_all(e["c"][1]) or {}).get("d") == hd
                     if e.get("k") == "CXXMemberCallExpr" and (strip(e["c"][0]) or {}).get("n") == "value":
-                        return any(x.get("k") == "DeclRefExpr" and x.get("d") == hd for x in walk(e))
+                        return mentions
                     return False
-                ups = [n for n in fn.walk() if n.get("k") == "CXXMemberCallExpr" and (strip(n["c"][0]) or {}).get("n") == "update"
-                       and "CRC" in notpl((strip(n["c"][0]) or {}).get("q") or "")]
-                seeds = []
-                for u in ups:
-                    a0 = strip_all(u["c"][1]) if len(u["c"]) > 1 else None
-                    if a0 is not None and a0.get("k") == "DeclRefExpr":
-                        for vd in fn.walk():
-                            if vd.get("k") == "VarDecl" and vd.get("d") == a0["d"] and vd.get("c") and "[1]" in (vd.get("t") or ""):
-                                il = strip_all(vd["c"][0])
-                                if il is not None and il.get("k") == "InitListExpr" and len(il.get("c", [])) == 1:
-                                    seeds.append((u, vd, il["c"][0]))
-                if not seeds:
+                seed = None
+                for n in fn.walk():
+                    if seed is not None:
+                        break
+                    if n.get("k") == "CXXMemberCallExpr" and (strip(n["c"][0]) or {}).get("n") == "update" and \
+                            "CRC" in notpl((strip(n["c"][0]) or {}).get("q") or ""):
+                        a0 = strip_all(n["c"][1]) if len(n["c"]) > 1 else None
+                        if a0 is not None and a0.get("k") == "UnaryOperator" and a0.get("op") == "&":
+                            a0 = strip_all(a0["c"][0])
+                        if a0 is not None and a0.get("k") == "DeclRefExpr":
+                            seed = a0
+                    elif n.get("k") == "CallExpr" and "crc" in notpl(n.get("q") or "").lower():
+                        for a in _crc_fed_args(fn, n):
+                            sa = strip(a)
+                            if sa is not None and (sa.get("w") == 8 or (strip_all(a) or {}).get("w") == 8):
+                                seed = strip_all(a)
+                                break
+                if seed is None:
                     r.undecided.append("%s: cannot find the mark byte given to the CRC ahead of the data field" % fn.loc(h))
                     continue
-                u, vd, elem = seeds[0]
+                # an array `byte m[1] = { expr }` stands for its element
+                elem = seed
+                if seed.get("k") == "DeclRefExpr":
+                    for vd in fn.walk():
+                        if vd.get("k") == "VarDecl" and vd.get("d") == seed["d"] and vd.get("c"):
+                            il = strip_all(vd["c"][0])
+                            if il is not None and il.get("k") == "InitListExpr" and len(il.get("c", [])) == 1:
+                                elem = il["c"][0]
                 for v in sorted(accepted):
                     key = "%s::%s::mark 0x%04X" % (fn.relfile(), fn.qn, v)
                     clock, data = _fm_split(v)
                     try:
-                        seed = _ceval(fn, elem, is_mark, v) & 0xFF
+                        sv = _ceval(fn, elem, is_mark, v) & 0xFF
                     except _NoValue as e:
-                        r.undecided.append("%s: cannot evaluate the mark byte given to the CRC (%s)" % (fn.loc(vd), e))
+                        r.undecided.append("%s: cannot evaluate the mark byte given to the CRC (%s)" % (fn.loc(h), e))
                         break
-                    ok = clock == 0xC7 and seed == data
-                    r.add(key, lam.loc(rets[0]), ok, "clock 0xC7, data 0x%02X = the byte checked by the CRC" % data if ok else
+                    ok = clock == 0xC7 and sv == data
+                    r.add(key, sf.loc(rets[0]), ok, "clock 0xC7, data 0x%02X = the byte checked by the CRC" % data if ok else
                           "the mark search accepts the cell pattern 0x%04X (clock 0x%02X, data 0x%02X) but the CRC is computed as "
                           "if the mark byte were 0x%02X: a data field whose mark was damaged passes the CRC check and its "
-                          "sector is returned as good" % (v, clock, data, seed))
+                          "sector is returned as good" % (v, clock, data, sv))
     return r
 
 
